@@ -672,7 +672,7 @@ class TwoElecRecursionsAnyL:
         Ka, Kb, Kc, Kd = shape["K"]
         cen = [M.vec(n, 3) for n in "ABCD"]
         ex = [M.vec(n, k, "pos") for n, k in zip("abcd", (Ka, Kb, Kc, Kd))]
-        co = [M.vec("d" + n, (k, 1)) for n, k in zip("abcd", (Ka, Kb, Kc, Kd))]
+        co = [M.vec("d" + n, (k, 2 if n == "a" else 1)) for n, k in zip("abcd", (Ka, Kb, Kc, Kd))]
         sizes = ["la", "lb", "lc", "ld"]
         ls = [G.Aff.var(n) for n in sizes]
         L = ls[0] + ls[1] + ls[2] + ls[3]
@@ -705,17 +705,19 @@ class TwoElecRecursionsAnyL:
 
         def setup(C_):
             C_.assumed.append(("ge", L, G.Aff.of(1)))  # precondition: not all four shells are s shells
+            C_.allow_extent_exponents = True
 
         cases = G.run_cases(sizes, body, setup)
         for cn, (C, (stage_end, seen)) in enumerate(cases):
-            self._check_case(M, C, stage_end, seen, sizes, shape, cen, ex, ls, L, "anyLeri" if len(cases) == 1 else "anyLeri/case%d" % cn)
+            self._check_case(M, C, stage_end, seen, sizes, shape, cen, ex, co, ls, L, "anyLeri" if len(cases) == 1 else "anyLeri/case%d" % cn)
 
-    def _check_case(self, M, C, stage_end, seen, sizes, shape, cen, ex, ls, L, pfx):
+    def _check_case(self, M, C, stage_end, seen, sizes, shape, cen, ex, co, ls, L, pfx):
         import z3
 
         Ka, Kb, Kc, Kd = shape["K"]
         cp = _case_premise(C, sizes)
-        M.true(pfx + "/recursion-stages-completed", stage_end is not None and C.ntab == 2, "the run reaches the contraction step with two tables filled (%s)" % stage_end)
+        M.true(pfx + "/recursion-stages-completed", stage_end is not None and C.ntab >= 3,
+               "the run reaches the selection of angular-momentum components with three tables filled (%s)" % stage_end)
         tails = list(itertools.product(range(Kd), range(Kb), range(Kc), range(Ka)))
         envb, _ = G._z3env()
         prem0 = lambda env: [env("la") + env("lb") + env("lc") + env("ld") >= 1] + (cp(env) if cp else [])
@@ -833,6 +835,54 @@ class TwoElecRecursionsAnyL:
         ret_e = dict(kind="read", tid=1, idx=tuple(rv), loops=[], seq=None, bounds=[],
                      cons=[("ge", v, G.Aff.of(0)) for v in rv] + [("lt", rv[0] + rv[1] + rv[2], ls[2] + ls[3] + 1), ("lt", rv[3] + rv[4] + rv[5], ls[0] + ls[1] + 1)])
         check_events(M, C, sizes, tails, cand_e, base_e, pfx=pfx + "/transfer", domain=dom_e, tid=1, domains=doms, extra_prem=prem0, returned=[ret_e])
+
+        # ---- table 2: contraction over the primitives, then the horizontal recursion that builds d_x, d_y from c
+        from fractions import Fraction
+
+        la_, lb_, lc_, ld_ = ls
+        Ms = [c_.shape[1] for c_ in co]  # segments of a, b, c, d
+        htails = list(itertools.product(range(Ms[0]), range(Ms[2]), range(Ms[1]), range(Ms[3])))  # (m_a, m_c, m_b, m_d)
+
+        def Nprim(alpha, l):
+            return (alpha * 2 / M.SF.pi) ** Fraction(3, 4) * (S.lift(alpha * 4) ** G.ExtExp(l, 2))
+
+        def base_h(idx, tail):
+            if all(e.is_const() and e.c == 0 for e in idx[:2]):
+                ma, mc, mb, md = tail
+                tot = S.lift(0)
+                for pd, pb, pc, pa in tails:
+                    w = (Nprim(ex[0][pa], la_) * co[0][pa, ma] * Nprim(ex[2][pc], lc_) * co[2][pc, mc]
+                         * Nprim(ex[1][pb], lb_) * co[1][pb, mb] * Nprim(ex[3][pd], ld_) * co[3][pd, md])
+                    tot = tot + C.named_atom("S1", *(tuple(idx[2:]) + ((pd, pb, pc, pa),))) * w
+                return tot
+            return None
+
+        def cand_h(idx, tail):
+            out_ = []
+            for i in (1, 0):  # d_y, d_x
+                di = idx[i]
+                if di.is_const() and di.c == 0:
+                    continue
+                low = list(idx)
+                low[i] = di - 1
+                up = list(low)
+                up[2 + i] = idx[2 + i] + 1
+                CD = cen[2][i] - cen[3][i]
+                rhs = C.named_atom("S2", *(tuple(up) + (tail,))) + CD * C.named_atom("S2", *(tuple(low) + (tail,)))
+                out_.append(("the horizontal relation raising d_%s" % "xy"[i], rhs, [di - 1]))
+            return out_
+
+        def dom_h(env, dx, dy, cx, cy, cz, ax, ay, az):
+            lcd, lab = env("lc") + env("ld"), env("la") + env("lb")
+            return z3.And(dx >= 0, dy >= 0, cx >= 0, cy >= 0, cz >= 0, ax >= 0, ay >= 0, az >= 0, dx <= env("ld"), dy <= env("ld"),
+                          cx + cy + cz + dx + dy <= lcd, ax + ay + az <= lab)
+
+        doms[2] = dom_h
+        hv = [G.Aff.var(v) for v in ("hdx", "hdy", "hcx", "hcy", "hcz", "hax", "hay", "haz")]
+        ret_h = dict(kind="read", tid=2, idx=tuple(hv), loops=[], seq=None, bounds=[],
+                     cons=[("ge", v, G.Aff.of(0)) for v in hv] + [("lt", hv[0], ld_ + 1), ("lt", hv[1], ld_ + 1),
+                                                                  ("lt", hv[2] + hv[3] + hv[4] + hv[0] + hv[1], lc_ + ld_ + 1), ("lt", hv[5] + hv[6] + hv[7], la_ + lb_ + 1)])
+        check_events(M, C, sizes, htails, cand_h, base_h, pfx=pfx + "/contraction+horizontal-d", domain=dom_h, tid=2, domains=doms, extra_prem=prem0, returned=[ret_h])
 
 
 def _dfact_atom(v):
